@@ -307,7 +307,31 @@ def run_thr(hi, bound, shard):
         bodies = [("L", L), ("R", R)] + ([("G", G)] if h["glob"] else [])
 
         def observe(s):
+            # For each buffer append by L: could R's re-delivery loop still pick it up?
+            # Lines execute between two consecutive line events of a thread, so the
+            # append of L's k-th buffer call is done at L's *next* event after the
+            # first line of BufferingDestination.__call__.  R's `for` loop over the
+            # (live) buffer list sees an appended item iff R still has a later
+            # line event on that `for` line.
+            import linecache
+
+            tids = {t.name: t.tid for t in s.threads}
+            appends = []
+            log = s.line_log
+            first = None
+            for i, (tid, fn, ln) in enumerate(log):
+                if fn == "__call__" and tid == tids["L"]:
+                    if first is None:
+                        first = ln
+                    if ln == first:
+                        done_at = next((j for j in range(i + 1, len(log)) if log[j][0] == tids["L"]), len(log))
+                        later_for = any(
+                            t == tids["R"] and f == "add" and linecache.getline(OUT_FILE, l).strip().startswith("for ")
+                            for t, f, l in log[done_at:]
+                        )
+                        appends.append("redelivery-loop-still-running" if later_for else "after-redelivery-loop-ended")
             return {
+                "l_buffer_appends": appends,
                 "recv": {n: [g[0] for g in real.d[n].got] for n in h["add"]},
                 "globals": {n: [dict(g[1]).get("k") for g in real.d[n].got] for n in h["add"]},
                 "detached_buffer": [m.get("serial") for m in buffer0.messages],
@@ -352,7 +376,10 @@ def run_thr(hi, bound, shard):
                 if m <= h["pre"]:
                     sigs.append("first-add-race:lost-message-buffered-before-the-add")
                 elif m in x.obs["detached_buffer"]:
-                    sigs.append("first-add-race:lost:appended-to-detached-buffer")
+                    # which of L's buffer appends was it, and where was R then?
+                    j = x.obs["detached_buffer"].index(m) - h["pre"]
+                    ph = x.obs["l_buffer_appends"][j] if 0 <= j < len(x.obs["l_buffer_appends"]) else "unknown"
+                    sigs.append("first-add-race:lost:appended-to-detached-buffer:" + ph)
                 else:
                     sigs.append("first-add-race:lost:sent-to-empty-destination-list")
             for sig in sorted(set(sigs)):
